@@ -66,7 +66,7 @@ RULE = ('per case one lens and one (pupil sampling N, grid) pair; every listed (
         'pixels per case capped (2048 thorough only). Family per case: PSF / FFT-MTF / geometric MTF / all three on '
         'perfect systems. Non-trivial: >= 100 pupil samples in the mask and (>= 2 powered interfaces or a perfect '
         'system); distinct = distinct case hash')
-TIERS = {'quick': dict(shards=12, cases=24, budget_s=55), 'thorough': dict(shards=16, cases=150, budget_s=460)}
+TIERS = {'quick': dict(shards=12, cases=24, budget_s=240), 'thorough': dict(shards=16, cases=150, budget_s=460)}
 MIN_NONTRIVIAL = {'quick': 60, 'thorough': 800}
 MIN_EVALS = {
     'psf-nonnegative': {'quick': 60, 'thorough': 1500}, 'psf-shape': {'quick': 60, 'thorough': 1500},
